@@ -494,7 +494,7 @@ def execute(case: dict) -> dict:
         for hd in list(handles.values()) + [x for x in (spare_r, spare_s) if x is not None]:
             hd.close()
 
-    info: dict = {}
+    info: dict = {"stuck_ticks": 600}
     try:
         run(main, config=case["cfg"], info=info)
     except Deadlock:
